@@ -200,3 +200,10 @@ Example c13_fifo_refuted_requeue_at_back :
   let st := run sys0 w_requeue in
   out_to st 2 = [FArray [FBulk (bs "q"); FBulk (bs "b")]] /\ out_to st 1 = [] /\ waiting st 0 (bs "q") = [1].
 Proof. vm_compute. repeat split; reflexivity. Qed.
+(** reregister-no-recheck (open): connection 1 is Blocked and registered on r, r holds an element,
+    no wake-up is under way - in a history of plain list commands satisfying every hypothesis *)
+Example c13_progress_refuted_reregister_no_recheck :
+  all_ok_cons sys0 w_recheck = true /\
+  let st := run sys0 w_recheck in
+  list_at (fst st) 0 (bs "r") = [bs "b"] /\ waiting st 0 (bs "r") = [1] /\ b_wake (snd st) = [] /\ out_to st 1 = [].
+Proof. vm_compute. repeat split; reflexivity. Qed.
